@@ -35,7 +35,7 @@ type Step struct {
 	Parallel bool   `json:"parallel,omitempty"`
 	Steps    []Step `json:"steps,omitempty"`
 	Tag      string `json:"tag,omitempty"`
-	Suite    bool   `json:"suite,omitempty"` // sub: the subtest function is declared in the non-test file suite.go of the package
+	Suite    bool   `json:"suite,omitempty"`          // sub: the subtest function is declared in the non-test file suite.go of the package
 	FromExec int    `json:"from_execution,omitempty"` // skip: only from this execution of the test on (-count)
 }
 
@@ -97,7 +97,7 @@ type RunOpts struct {
 	CIEnv   string `json:"ci_env"` // with CI: the variable that makes the run a CI run (default CI=true), e.g. BUILD_NUMBER=17
 	Upd     string `json:"update_snaps"`
 	UpdSet  bool   `json:"update_snaps_set"`
-	GoFlags string `json:"goflags"` // GOFLAGS in the environment of the test process (as under `go test`)
+	GoFlags string `json:"goflags"`           // GOFLAGS in the environment of the test process (as under `go test`)
 	Shuffle string `json:"shuffle,omitempty"` // -test.shuffle (on | a seed)
 }
 
